@@ -97,6 +97,42 @@ def _expr(e, names) -> str:
     raise P.Untranslatable("expression outside the translated subset: " + ast.dump(e)[:80])
 
 
+def _get_cfm_table(cls):
+    """`get_cfm`: an if/elif chain `name == "<CFM>"` -> `return self.<method>`, ending in `return None`."""
+    fn = _method(cls, "get_cfm")
+    body = [n for n in fn.body if not (isinstance(n, ast.Expr) and isinstance(n.value, ast.Constant))]
+    if len(body) != 1:
+        raise P.Untranslatable(f"{cls.name}.get_cfm: a single if/elif chain expected")
+    node, pairs = body[0], []
+    while isinstance(node, ast.If):
+        t = node.test
+        if not (isinstance(t, ast.Compare) and isinstance(t.left, ast.Name) and t.left.id == "name" and len(t.ops) == 1
+                and isinstance(t.ops[0], ast.Eq) and isinstance(t.comparators[0], ast.Constant)
+                and isinstance(t.comparators[0].value, str)):
+            raise P.Untranslatable(f"{cls.name}.get_cfm: test is not `name == <str>`")
+        if not (len(node.body) == 1 and isinstance(node.body[0], ast.Return)
+                and isinstance(node.body[0].value, ast.Attribute) and isinstance(node.body[0].value.value, ast.Name)
+                and node.body[0].value.value.id == "self"):
+            raise P.Untranslatable(f"{cls.name}.get_cfm: branch is not `return self.<method>`")
+        pairs.append((t.comparators[0].value, node.body[0].value.attr))
+        if len(node.orelse) != 1:
+            raise P.Untranslatable(f"{cls.name}.get_cfm: else branch missing")
+        node = node.orelse[0]
+    if not (isinstance(node, ast.Return) and isinstance(node.value, ast.Constant) and node.value.value is None):
+        raise P.Untranslatable(f"{cls.name}.get_cfm: chain does not end in `return None`")
+    return pairs
+
+
+def _forced_length(cls):
+    ip = _method(cls, "init_params")
+    vals = [n.value.value for n in ast.walk(ip) if isinstance(n, ast.Assign) and len(n.targets) == 1
+            and isinstance(n.targets[0], ast.Attribute) and n.targets[0].attr == "length"
+            and isinstance(n.value, ast.Constant) and type(n.value.value) is int]
+    if len(vals) != 1:
+        raise P.Untranslatable(f"{cls.name}.init_params: one `self.length = <int>` expected")
+    return vals[0]
+
+
 def generate(lean_dir: str):
     mod = P.parse_file(SRC)
     base = _cls(mod, "PDFStandardSecurityHandler")
@@ -252,6 +288,61 @@ def generate(lean_dir: str):
     if len(spaces) != 1:
         raise P.Untranslatable("saslprep: one single-character replacement constant expected")
     out.append(f"def SASL_SPACE : Nat := {ord(spaces[0])}\n\n")
+
+
+    # ---- round 6: crypt-filter tables, forced key lengths, the decision of V4.decrypt, unpad_aes
+    def pairs_lean(pairs):
+        return "[" + ", ".join("(%s, \"%s\")" % (P.lean_bytes(k.encode("latin-1")), m) for k, m in pairs) + "]"
+    out.append("/-- `PDFStandardSecurityHandlerV4.get_cfm`: CFM name -> method of the handler -/\n")
+    out.append("def GET_CFM_V4 : List (Bytes × String) := " + pairs_lean(_get_cfm_table(v4)) + "\n\n")
+    out.append("/-- `PDFStandardSecurityHandlerV5.get_cfm` -/\n")
+    out.append("def GET_CFM_V5 : List (Bytes × String) := " + pairs_lean(_get_cfm_table(v5)) + "\n\n")
+    out.append(f"def FORCED_LENGTH_V4 : Nat := {_forced_length(v4)}\n\ndef FORCED_LENGTH_V5 : Nat := {_forced_length(v5)}\n\n")
+    ip4 = _method(v4, "init_params")
+    ident = [n for n in ast.walk(ip4) if isinstance(n, ast.Assign) and len(n.targets) == 1
+             and isinstance(n.targets[0], ast.Subscript) and isinstance(n.targets[0].value, ast.Attribute)
+             and n.targets[0].value.attr == "cfm" and isinstance(n.targets[0].slice, ast.Constant)
+             and isinstance(n.targets[0].slice.value, str) and isinstance(n.value, ast.Attribute)]
+    if len(ident) != 1:
+        raise P.Untranslatable("V4.init_params: one `self.cfm[<str>] = self.<method>` expected")
+    out.append("/-- the built-in crypt filter `init_params` adds after the loop over CF -/\n")
+    out.append("def BUILTIN_FILTER : Bytes × String := (" + P.lean_bytes(ident[0].targets[0].slice.value.encode("latin-1"))
+               + ", \"" + ident[0].value.attr + "\")\n\n")
+    tests = sorted(ast.unparse(n.test) for n in ast.walk(ip4) if isinstance(n, ast.If))
+    if tests != sorted(["self.stmf != self.strf", "f is None", "self.strf not in self.cfm"]):
+        raise P.Untranslatable(f"V4.init_params: unexpected checks {tests}")
+    dec = _method(v4, "decrypt")
+    ifs = [n for n in dec.body if isinstance(n, ast.If)]
+    if [ast.unparse(n.test) for n in ifs] != ["not self.encrypt_metadata and attrs is not None", "name is None"]:
+        raise P.Untranslatable("V4.decrypt: unexpected top-level tests " + repr([ast.unparse(n.test) for n in ifs]))
+    inner = [n for n in ast.walk(ifs[0]) if isinstance(n, ast.If) and n is not ifs[0]]
+    if len(inner) != 1 or not ast.unparse(inner[0].test).startswith("t is not None and literal_name(t) == "):
+        raise P.Untranslatable("V4.decrypt: Metadata test not found")
+    mconst = [n.value for n in ast.walk(inner[0].test) if isinstance(n, ast.Constant) and isinstance(n.value, str)]
+    if len(mconst) != 1 or ast.unparse(inner[0].body[0]) != "return data":
+        raise P.Untranslatable("V4.decrypt: `literal_name(t) == <str>` / `return data` expected")
+    out.append("/-- `Type` value for which `decrypt` returns the data untouched when EncryptMetadata is false -/\n")
+    out.append("def BYPASS_TYPE : Bytes := " + P.lean_bytes(mconst[0].encode("latin-1")) + "\n\n")
+    if ast.unparse(ifs[1].body[0]) != "name = self.strf" or ast.unparse(dec.body[-1]) != "return self.cfm[name](objid, genno, data)":
+        raise P.Untranslatable("V4.decrypt: `name = self.strf` / `return self.cfm[name](objid, genno, data)` expected")
+    out.append("/-- attribute holding the crypt-filter name `decrypt` uses for strings AND streams -/\n")
+    out.append("def DEFAULT_FILTER_ATTR : String := \"strf\"\n\n")
+    up = P.find_function(mod, "unpad_aes")
+    uifs = [n for n in ast.walk(up) if isinstance(n, ast.If)]
+    if len(uifs) != 2 or ast.unparse(uifs[0].test) != "not padded":
+        raise P.Untranslatable("unpad_aes: `if not padded` + one padding test expected")
+    t = uifs[1].test
+    if not (isinstance(t, ast.BoolOp) and isinstance(t.op, ast.And) and len(t.values) == 3
+            and isinstance(t.values[0], ast.Compare) and isinstance(t.values[0].left, ast.Constant)
+            and [type(o) for o in t.values[0].ops] == [ast.LtE, ast.LtE]
+            and ast.unparse(t.values[0].comparators[0]) == "n" and isinstance(t.values[0].comparators[1], ast.Constant)
+            and ast.unparse(t.values[1]) == "n <= len(padded)"
+            and ast.unparse(t.values[2]) == "padded.endswith(bytes((n,)) * n)"
+            and ast.unparse(uifs[1].body[0]) == "return padded[:-n]"
+            and ast.unparse(up.body[-1]) == "return padded"):
+        raise P.Untranslatable("unpad_aes: unexpected padding test " + ast.unparse(t))
+    out.append("/-- `unpad_aes`: a padding of `n` bytes is removed for `UNPAD_MIN <= n <= UNPAD_MAX` -/\n")
+    out.append(f"def UNPAD_MIN : Nat := {t.values[0].left.value}\n\ndef UNPAD_MAX : Nat := {t.values[0].comparators[1].value}\n\n")
 
     out.append("end PdfVerif.Gen.Crypt\n")
     path = os.path.join(lean_dir, "PdfVerif", "Gen", "Crypt.lean")
